@@ -1,5 +1,5 @@
 #!/usr/bin/env python3
-"""Regenerates the table of DESIGN.md section 11.6 from seeded/*/meta.json (between the markers)."""
+"""Regenerates the table of DESIGN.md section 11.7 from seeded/*/meta.json (between the markers)."""
 import json, glob, os, re
 ROOT = os.path.dirname(os.path.dirname(os.path.abspath(__file__)))
 BEGIN, END = "<!-- seeded-table:begin -->", "<!-- seeded-table:end -->"
